@@ -350,7 +350,11 @@ let () =
     let a = sstate_str (Abs.abs now d') in
     let b = sstate_str (Spec.spurge now s') in
     (match skip with
-     | Some why -> Printf.printf "V skip %s\n" why; s := Abs.abs now d'
+     | Some why ->
+         if Str_.length why > 5 && Str_.sub why 0 5 = "EXCL " then
+           Printf.printf "V excl %s\n" (Str_.sub why 5 (Str_.length why - 5))
+         else Printf.printf "V skip %s\n" why;
+         s := Abs.abs now d'
      | None ->
          match verdict with
          | Some v -> Printf.printf "V BAD %s\n" v; s := Abs.abs now d'
@@ -365,6 +369,9 @@ let () =
     Printf.printf "D %s\n" (dump_str d');
     let (s', ss) = Spec.spec_update now ops stop !s in
     let skip =
+      match Excl.excluded_block now !d ops with
+      | Some name -> Some ("EXCL " ^ name)
+      | None ->
       if L.exists (fun o -> Spec.spec_mode true o = Spec.CmpNone) ops then Some "storage-level operation in block"
       else if (not stop) && L.exists (fun (r : out) -> r.o_err <> None) rs then Some "block continued after an error"
       else None in
@@ -376,7 +383,13 @@ let () =
               (match cmp_result o (Spec.spec_mode true o) a b with Some v -> Some v | None -> go os' ri' rs')
           | _ -> None in
         go ops rs ss in
-    finish_step now d' s' verdict skip
+    let pre = !d in
+    finish_step now d' s' verdict skip;
+    let bad = ref [] in
+    if not (Inv.inv_ok d') then bad := "inv" :: !bad;
+    if not (Inv.block_no_trace now ops stop pre) then bad := "trace" :: !bad;
+    if not (Inv.block_meta_ok now ops stop pre) then bad := "meta" :: !bad;
+    Printf.printf "N %s\n" (if !bad = [] then "ok" else Str_.concat "," !bad)
   in
   (try
      while true do
@@ -396,8 +409,17 @@ let () =
                 Printf.printf "D %s\n" (dump_str d');
                 let mode = Spec.spec_mode false o in
                 let (s', rs) = Spec.spec_step now o !s in
-                let skip = if mode = Spec.CmpNone then Some "storage-level operation" else None in
-                finish_step now d' s' (cmp_result o mode r rs) skip
+                let skip =
+                  match Excl.excluded now !d o with
+                  | Some name -> Some ("EXCL " ^ name)
+                  | None -> if mode = Spec.CmpNone then Some "storage-level operation" else None in
+                let pre = !d in
+                finish_step now d' s' (cmp_result o mode r rs) skip;
+                let bad = ref [] in
+                if not (Inv.inv_ok d') then bad := "inv" :: !bad;
+                if not (Inv.no_trace_ok o r pre d') then bad := "trace" :: !bad;
+                if not (Inv.meta_ok now pre d') then bad := "meta" :: !bad;
+                Printf.printf "N %s\n" (if !bad = [] then "ok" else Str_.concat "," !bad)
             | "T" ->
                 let now = z_of_string (next ()) in
                 let stop = (next () = "1") in
